@@ -104,6 +104,19 @@ def c04_cases():
             ('percolation_based_discrete_SIR', 'SIR', tmin, tmax, True, lambda tmin=tmin, tmax=tmax: EoN.percolation_based_discrete_SIR(G, 0.6, initial_infecteds=[0], initial_recovereds=[3], tmin=tmin, tmax=tmax)),
             ('basic_discrete_SIS', 'SIS', tmin, tmin + 4, True, lambda tmin=tmin: EoN.basic_discrete_SIS(G, 0.6, initial_infecteds=[0, 2], tmin=tmin, tmax=tmin + 4)),
         ]
+    # a recovery rule that keeps some nodes infectious for several steps (finite horizon: the rule may never let go)
+    for tmin, tmax in ((0, 8), (3, 7)):
+        out.append(('discrete_SIR with test_recovery', 'SIR', tmin, tmax, True, lambda tmin=tmin, tmax=tmax: EoN.discrete_SIR(
+            G, args=(0.6,), test_recovery=lambda u: random.random() < 0.4, initial_infecteds=[0, 2], initial_recovereds=[3], tmin=tmin, tmax=tmax)))
+    # an initial condition written for a larger population than the simulated network: the extra keys are not nodes of G
+    IC_big = dict(IC); IC_big.update({'outside-%d' % i: 'I' for i in range(4)}); IC_big['outside-r'] = 'R'
+    out.append(('Gillespie_complex_contagion (IC with keys that are not nodes)', 'SIR', 1.5, 6.0, False, lambda: EoN.Gillespie_complex_contagion(
+        G, rate_fn, lambda G_, n, s, p: 'I' if s[n] == 'S' else 'R', lambda G_, n, s, p: list(G_.neighbors(n)), IC_big, ['S', 'I', 'R'], tmin=1.5, tmax=6.0)))
+    out.append(('Gillespie_simple_contagion (IC with keys that are not nodes)', 'SIR', 1.5, 6.0, False,
+                lambda: EoN.Gillespie_simple_contagion(G, H, J, IC_big, ['S', 'I', 'R'], tmin=1.5, tmax=6.0)))
+    # everybody infectious at the start: the SIS chain goes on (next step: everybody susceptible), it does not stop
+    out.append(('basic_discrete_SIS from an all-infected start', 'SIS', 2, 6, True, lambda: EoN.basic_discrete_SIS(G, 0.6, initial_infecteds=list(G), tmin=2, tmax=6)))
+    out.append(('basic_discrete_SIS rho=1', 'SIS', 0, 3, True, lambda: EoN.basic_discrete_SIS(G, 1.0, rho=1.0, tmin=0, tmax=3)))
     return N, out
 
 
@@ -122,6 +135,8 @@ def c04_native(seeds=(1, 2, 3, 4)):
             why = check_rows(arrs, Nn if ' on a ' in name else N, tmin, tmax, kind, discrete)
             if why is None and kind == 'SIR' and not discrete and not math.isfinite(tmax) and 'gamma=0' not in name and int(arrs[2][-1]) != 0:
                 why = 'unbounded horizon but the run ends with %d infected nodes' % int(arrs[2][-1])
+            if why is None and discrete and math.isfinite(tmax) and int(arrs[2][-1]) != 0 and float(arrs[0][-1]) + 1 <= tmax:
+                why = 'the run stops at t=%s with %d infectious nodes although another step fits before tmax=%s' % (arrs[0][-1], int(arrs[2][-1]), tmax)
             if why:
                 return n, dict(simulator=name, tmin=tmin, tmax=tmax, seed=seed, observed=why,
                                arrays=[[float(x) for x in a][:12] for a in arrs])
@@ -408,7 +423,8 @@ def c12_native():
     G = nx.Graph(); G.add_edges_from([(0, 1), (0, 2), (1, 2), (2, 3), (3, 4), (1, 4)]); G.add_node(5)
     pval = 0.35
     try:
-        for name, seeds in (('basic_discrete_SIS', [0, 3]), ('basic_discrete_SIR', [0, 3]), ('basic_discrete_SIS', [2]), ('basic_discrete_SIR', [2])):
+        for name, seeds in (('basic_discrete_SIS', [0, 3]), ('basic_discrete_SIR', [0, 3]), ('basic_discrete_SIS', [2]), ('basic_discrete_SIR', [2]),
+                            ('basic_discrete_SIS', list(G)), ('basic_discrete_SIR', list(G)), ('basic_discrete_SIS', [0, 1, 2, 3, 4])):
             f = getattr(EoN, name)
             contacts = [(u, v) for u in seeds for v in G.neighbors(u) if v not in seeds]
             targets_seen = []
